@@ -149,7 +149,7 @@ def length_for(alphabet: str, max_inputs: int) -> int:
     return L
 
 
-def c01_specs(tier: str, kmode: str = "zero", terminals=T_FULL, soi_free: bool = False, extra_sigma: str = "", max_inputs: int | None = None, extra_trivia=()):
+def c01_specs(tier: str, kmode: str = "zero", terminals=T_FULL, soi_free: bool = False, extra_sigma: str = "", max_inputs: int | None = None, extra_trivia=(), sigma_core: str | None = None):
     b = C01_BOUNDS[tier]
     if extra_trivia:
         n0, mods0, trivs0 = b["top"][0]
@@ -166,7 +166,7 @@ def c01_specs(tier: str, kmode: str = "zero", terminals=T_FULL, soi_free: bool =
 
     for n, mods, trivs in b["top"]:
         for tv in trivs:
-            sigma = SIGMA_CORE + TRIVIA_SIGMA[tv] + extra_sigma
+            sigma = (sigma_core or SIGMA_CORE) + TRIVIA_SIGMA[tv] + extra_sigma
             ins = inputs(sigma, length_for(sigma, mi))
             if tv in extra_trivia:
                 # configurations added for one property: a small alphabet, so that inputs reach length 3
@@ -177,7 +177,7 @@ def c01_specs(tier: str, kmode: str = "zero", terminals=T_FULL, soi_free: bool =
     ctxs = contexts()
     for hole_n, trivs in b["ctx"]:
         for tv in trivs:
-            sigma = SIGMA_CORE + TRIVIA_SIGMA[tv] + extra_sigma
+            sigma = (sigma_core or SIGMA_CORE) + TRIVIA_SIGMA[tv] + extra_sigma
             ins = inputs(sigma, length_for(sigma, mi))
             for cname, f in ctxs.items():
                 starts = []
